@@ -249,9 +249,49 @@ def check_export(ctx, model, before_exp, hw, tag=""):
   return check_bn_fusing(ctx, model, hw)
 
 
+def expected_fusable(model):
+  """Independent of the library's graph code: a QConv2D / QDepthwiseConv2D
+  whose output has exactly one consumer, a QBatchNormalization."""
+  out = {}
+  for l in model.layers:
+    if type(l).__name__ not in ("QConv2D", "QDepthwiseConv2D"):
+      continue
+    consumers = []
+    for node in l._outbound_nodes:
+      consumers.append(node.outbound_layer)
+    if len(consumers) == 1 and type(consumers[0]).__name__ == \
+        "QBatchNormalization":
+      out[l.name] = consumers[0].name
+  return out
+
+
 def check_bn_fusing(ctx, model, hw):
   """bn_inv / fused_bias from the BN algebra on the quantized parameters."""
   layers = model.layers
+  want = expected_fusable(model)
+  ctx.checked()
+  for l in layers:
+    d = hw.get(l.name)
+    if d is None:
+      continue
+    got = d.get("fused_bn_layer_name")
+    if l.name in want and got != want[l.name]:
+      ctx.violation("export|bn-fusing|fusable-pair-not-fused",
+                    "%s is followed only by %s but the dictionary has "
+                    "fused_bn_layer_name=%r" % (l.name, want[l.name], got))
+      return False
+    if l.name not in want and got:
+      ctx.violation("export|bn-fusing|spurious-fusion",
+                    "%s is not followed by a fusable batch-norm but carries "
+                    "fused_bn_layer_name=%r" % (l.name, got))
+      return False
+    if type(l).__name__ == "QBatchNormalization":
+      fused = l.name in want.values()
+      if bool(d.get("enable_bn_fusing")) != fused:
+        ctx.violation("export|bn-fusing|bn-layer-flag-wrong",
+                      "%s enable_bn_fusing=%r, expected %r" % (
+                          l.name, d.get("enable_bn_fusing"), fused))
+        return False
   for i, l in enumerate(layers):
     d = hw.get(l.name) or {}
     if not d.get("fused_bn_layer_name"):
@@ -540,10 +580,40 @@ def op_freeze(ctx, w, op):
   ctx.probe("continued_on_frozen_model")
 
 
+def op_other_model(ctx, w, op):
+  """History of exports in one process: ANOTHER model of the same name (and a
+  different topology) is exported first, completely or interrupted; the main
+  model's export must not be influenced by it."""
+  from qkeras import utils as qu
+  ok, m2 = guard(ctx, "build-model", M.build_model, op["world2"])
+  if not ok:
+    return
+  crash = op.get("crash")
+  try:
+    if crash is None:
+      qu.model_save_quantized_weights(m2)
+    else:
+      with _CrashAt(m2, int(crash) % (1 + len([
+          l for l in exported_layers(m2)
+          if type(l).__name__ not in FOLDED]))):
+        qu.model_save_quantized_weights(m2, w.scratch.path("other.h5"))
+  except InjectedFault:
+    ctx.fault("other_model_export_interrupted")
+  except Exception as e:  # pylint: disable=broad-except
+    from .core import repo_frames
+    if not repo_frames(e):
+      raise
+    ctx.probe("other_model_export_raised")
+    return
+  ctx.fault("other_model_same_name_exported_before")
+
+
 def apply_op(ctx, w, op):
   k = op["k"]
   ctx.log("op", k)
-  if k == "EXPORT":
+  if k == "OTHER":
+    op_other_model(ctx, w, op)
+  elif k == "EXPORT":
     op_export(ctx, w, op)
   elif k == "CRASH_ALL":
     op_crash_all(ctx, w, op)
@@ -630,6 +700,9 @@ def gen_c14_model(rng):
 def generate(rng):
   world = gen_c14_model(rng)
   ops = []
+  if rng.chance(0.3):
+    ops.append({"k": "OTHER", "world2": gen_c14_model(rng),
+                "crash": rng.pick([None, None, 0, 1, 2, 5])})
   if rng.chance(0.25):
     ops.append({"k": "PERTURB", "seed": rng.subseed(),
                 "scale": rng.pick([1.0, 0.2, 3.0])})
@@ -710,6 +783,26 @@ def directed():
                 "ops": [{"k": "CRASH_ALL"}, {"k": "EXPORT", "file": True},
                         {"k": "PERTURB", "seed": 4, "scale": 1.0},
                         {"k": "EXPORT", "file": False}]})
+  # histories of exports of different models that share a name
+  a = {"input": "img", "wseed": 31, "out": "dense", "layers": [
+      conv(qb, qb), {"t": "QActivation", "aq": {"str": "quantized_relu(4)"}},
+      bn(True, True), {"t": "Flatten"}]}
+  b = {"input": "img", "wseed": 32, "out": "dense", "layers": [
+      conv(qb, qb), bn(True, True),
+      {"t": "QActivation", "aq": {"str": "quantized_relu(4)"}},
+      {"t": "Flatten"}]}
+  for first, second, crash in ((a, b, None), (b, a, None), (a, b, 1),
+                               (b, a, 0)):
+    out.append({"label": "directed:other-model-same-name:%s" % (
+        "crash%s" % crash if crash is not None else "complete"), "seed": 1,
+                "world": second, "ops": [
+                    {"k": "OTHER", "world2": first, "crash": crash},
+                    {"k": "EXPORT", "file": False}, {"k": "CRASH_ALL"}]})
+  out.append({"label": "directed:po2-kernel-relu-po2-bias", "seed": 1, "world": {
+      "input": "vec", "wseed": 23, "out": "none", "layers": [{
+          "t": "QDense", "units": 3, "use_bias": True, "kq": po2,
+          "bq": {"cls": "quantized_relu_po2", "kw": {"bits": 4}}}]},
+              "ops": [{"k": "EXPORT", "file": False}]})
   out.append({"label": "directed:binary-use_01", "seed": 1, "world": {
       "input": "vec", "wseed": 22, "layers": [{
           "t": "QDense", "units": 3, "use_bias": True, "kq": {
@@ -721,6 +814,10 @@ def directed():
               "cls": "quantized_bits", "kw": {"bits": 4, "integer": 0,
                                               "symmetric": 1, "alpha": 2.0}},
           "bq": qb}]}, "ops": [{"k": "EXPORT", "file": False}]})
+  # scenarios that carry their own history (another model exported first)
+  # run first: every worker then meets them with a clean process state
+  out.sort(key=lambda sc: 0 if sc["label"].startswith(
+      "directed:other-model") else 1)
   # freeze pipeline: auto_po2 -> frozen -> export is repeatable
   frz = {"input": "img", "wseed": 3, "layers": [
       conv(auto, qb), bn(True, True), {"t": "QActivation", "aq": {
